@@ -4,16 +4,14 @@ J = "json_to_models/"
 EXTRA = [
     ("label_digit_helper", "the leading-digit rewrite of prepare_label is extracted into a helper", [
         (J + "models/base.py",
-         "    if not ('a' <= s[0].lower() <= 'z'):\n"
-         "        if '0' <= s[0] <= '9':\n"
-         "            s = ones[int(s[0])] + \"_\" + s[1:]\n",
+         "    if s and '0' <= s[0] <= '9':\n"
+         "        s = ones[int(s[0])] + \"_\" + s[1:]\n",
          "    s = _spell_leading_digit(s)\n"),
         (J + "models/base.py",
          "def prepare_label(s: str, convert_unicode: bool, to_snake_case: bool) -> str:",
          "def _spell_leading_digit(s: str) -> str:\n"
-         "    if not ('a' <= s[0].lower() <= 'z'):\n"
-         "        if '0' <= s[0] <= '9':\n"
-         "            s = ones[int(s[0])] + \"_\" + s[1:]\n"
+         "    if s and '0' <= s[0] <= '9':\n"
+         "        s = ones[int(s[0])] + \"_\" + s[1:]\n"
          "    return s\n\n\n"
          "def prepare_label(s: str, convert_unicode: bool, to_snake_case: bool) -> str:"),
     ]),
